@@ -2075,6 +2075,40 @@ func (r *Run) positionalReducerProver(fn *ssa.Function, e ast.Expr) (string, boo
 	return "positional reducer: the workers run over lo.Range(n), the accumulator is made with the same n slots, every successful worker result carries the worker's index in ." + carrier.Name() + " (" + strconv.Itoa(nRet) + " return(s) checked) and the reducer hands its accumulator on", true
 }
 
+// pureResultOf: the call goes to a module function that does nothing but compute its single
+// result from its parameters and fields (one return, no stores, no calls but len); returns the
+// result value inside the callee and the parameter → argument mapping of this call.
+func (r *Run) pureResultOf(c *ssa.Call) (ssa.Value, map[*ssa.Parameter]ssa.Value) {
+	sc := c.Call.StaticCallee()
+	if sc == nil {
+		return nil, nil
+	}
+	d := r.P.declared(sc)
+	if d == nil || !inModule(d) || d.Blocks == nil || len(d.Params) != len(c.Call.Args) {
+		return nil, nil
+	}
+	rets := returnsOf(d)
+	if len(rets) != 1 || len(rets[0].Results) != 1 {
+		return nil, nil
+	}
+	for _, ins := range allInstrs(d) {
+		switch x := ins.(type) {
+		case *ssa.UnOp, *ssa.BinOp, *ssa.FieldAddr, *ssa.Field, *ssa.Return, *ssa.Convert, *ssa.ChangeType, *ssa.DebugRef:
+		case *ssa.Call:
+			if b, ok := x.Call.Value.(*ssa.Builtin); !ok || b.Name() != "len" {
+				return nil, nil
+			}
+		default:
+			return nil, nil
+		}
+	}
+	m := map[*ssa.Parameter]ssa.Value{}
+	for i, p := range d.Params {
+		m[p] = c.Call.Args[i]
+	}
+	return rets[0].Results[0], m
+}
+
 // sameCount: two integer values that are the same number — the same SSA value (possibly read
 // back from a single-assignment cell), or len() of the same list.
 func sameCount(a, b ssa.Value) bool {
@@ -2208,20 +2242,39 @@ func (r *Run) chunkSliceProver(fn *ssa.Function, e ast.Expr) (string, bool) {
 			if !ok || !strings.HasSuffix(strings.SplitN(calleeName(&rc.Call), "[", 2)[0], "lo.Range") || len(rc.Call.Args) != 1 {
 				continue
 			}
-			add, ok := viaCell(unwrap(rc.Call.Args[0])).(*ssa.BinOp)
+			// the count may be computed by a helper that only returns an expression over its
+			// parameters (`q.chunkCount(n)` for `n/q.maxBatchSize + 1`): read the expression
+			// with the call's arguments in place of the parameters
+			count := viaCell(unwrap(rc.Call.Args[0]))
+			pmap := map[*ssa.Parameter]ssa.Value{}
+			if hc, ok := count.(*ssa.Call); ok {
+				if res, m := r.pureResultOf(hc); res != nil {
+					count, pmap = viaCell(unwrap(res)), m
+				}
+			}
+			resolve := func(v ssa.Value) ssa.Value {
+				v = viaCell(unwrap(v))
+				if p, ok := v.(*ssa.Parameter); ok {
+					if a, ok := pmap[p]; ok {
+						return viaCell(unwrap(a))
+					}
+				}
+				return v
+			}
+			add, ok := count.(*ssa.BinOp)
 			if !ok || add.Op != token.ADD {
 				continue
 			}
 			var quo *ssa.BinOp
 			if isIntConst(add.Y, 1) {
-				quo, _ = viaCell(unwrap(add.X)).(*ssa.BinOp)
+				quo, _ = resolve(add.X).(*ssa.BinOp)
 			} else if isIntConst(add.X, 1) {
-				quo, _ = viaCell(unwrap(add.Y)).(*ssa.BinOp)
+				quo, _ = resolve(add.Y).(*ssa.BinOp)
 			}
 			if quo == nil || quo.Op != token.QUO || !dependsOnField(quo.Y, "maxBatchSize") {
 				continue
 			}
-			if lc, ok := viaCell(unwrap(quo.X)).(*ssa.Call); ok {
+			if lc, ok := resolve(quo.X).(*ssa.Call); ok {
 				if b, ok := lc.Call.Value.(*ssa.Builtin); ok && b.Name() == "len" && types.Identical(lc.Call.Args[0].Type(), sl.X.Type()) {
 					// the list whose length was taken is the list that is cut: one parameter of the
 					// fan-out's function, never assigned again (third audit: `inputs = lo.Filter(…)`
